@@ -16,7 +16,8 @@ RULE = ("case = (transport in {RTU/UDP, AA55/UDP, Modbus/TCP}, keep-alive, timeo
         "script, TCP connect outcomes, connect latency); exhaustive over all scripts of length retries+1 <= 3 from a "
         "15-action palette (13 of the property + exact tie + restarted fragment) (and connect-outcome scripts x a 5-action palette on TCP), Hypothesis-sampled for retries "
         "<= 6 with free delays on a T/16 grid. Non-trivial = script contains at least one action other than a valid "
-        "answer in time (or a non-ok connect outcome); distinct by (configuration, script).")
+        "answer in time (or a non-ok connect outcome); distinct by (configuration, script). Each case "
+        "runs through ProtocolCommand.execute on a bare protocol object or (flag api) through an inverter object's _read_from_socket.")
 ASSUMPTIONS = [
     "vlib/vloop.py models the asyncio transport/protocol callback contract of CPython 3.12 selector_events.py, not "
     "the kernel: real sockets, DNS and ICMP timing are out of scope",
@@ -56,7 +57,7 @@ def check_case(acc: Acc, case):
     transport, T, R = case["transport"], case["T"], case["R"]
     if not is_trivial(case):
         acc.nontrivial(transport, case.get("keep"), T, R, repr(case["script"]), repr(case.get("connect")),
-                       case.get("latency", 0))
+                       case.get("latency", 0), case.get("api", False))
     obs = netcase.run_single(case)
     out = obs.outcome
     fails = []
@@ -112,11 +113,13 @@ def _apply(acc, case):
 def enum_job(job):
     transport, keep, T, R, mode = job
     acc = Acc()
-    if mode == "scripts":
+    if mode in ("scripts", "scripts-api"):
         pal = palette(transport)
         for script in itertools.product(pal, repeat=R + 1):
             case = {"transport": transport, "keep": keep, "T": T, "R": R, "script": [list(a) for a in script],
                     "latency": 0}
+            if mode == "scripts-api":
+                case["api"] = True      # through an inverter object (Inverter._read_from_socket) instead of the bare protocol
             _apply(acc, case)
             if R == 2 and len(acc.samples) < 2 and script[0][0] not in ("answer", "drop"):
                 acc.sample(case)
@@ -164,7 +167,7 @@ def hyp_job(job):
         R = draw(st.integers(0, 6))
         case = {"transport": transport, "keep": draw(st.booleans()), "T": draw(st.sampled_from((0.5, 1.0, 2.0, 4.0, 5.0, 8.0, 30.0))),
                 "R": R, "script": draw(st.lists(action(transport), min_size=0, max_size=R + 2)),
-                "latency": draw(st.integers(0, 3))}
+                "latency": draw(st.integers(0, 3)), "api": draw(st.booleans())}
         if transport == "tcp":
             case["connect"] = draw(st.lists(st.sampled_from(("ok", "ok", "refused", "unreachable", "hangs", "timeout")),
                                             max_size=R + 1))
@@ -188,6 +191,10 @@ def run(ctx):
             for T in ((1.0,) if ctx.quick else (0.5, 1.0, 4.0)):
                 for R in (0, 1, 2):
                     jobs.append((transport, keep, T, R, "scripts"))
+    for transport in ("udp", "aa55", "tcp"):
+        for keep in (False, True):
+            for R in (0, 1):
+                jobs.append((transport, keep, 1.0, R, "scripts-api"))
     for keep in (False, True):
         for R in (0, 1, 2):
             jobs.append(("tcp", keep, 1.0, R, "connect"))
